@@ -450,17 +450,19 @@ func (p *Parser) parseAccountDirective(startPos Position) ast.Directive {
 
 	accountName := p.current.Value
 	accountPos := p.current.Pos
+	accountEnd := p.current.End
 	p.advance()
 
 	if p.current.Type == TokenText {
 		accountName += " " + p.current.Value
+		accountEnd = p.current.End
 		p.advance()
 	}
 
 	dir := ast.AccountDirective{
 		Account: ast.Account{
 			Name:  accountName,
-			Range: ast.Range{Start: toASTPosition(accountPos)},
+			Range: ast.Range{Start: toASTPosition(accountPos), End: toASTPosition(accountEnd)},
 		},
 		Range: ast.Range{Start: toASTPosition(startPos)},
 	}
